@@ -304,6 +304,12 @@ func (g *G) word(value bool) *Word {
 		}
 		return LW(pickS(g, argWords))
 	}
+	if !value && g.p(1, 10) {
+		// digits continued by a quoted / expanded part: a word, never an IO number,
+		// even directly in front of a redirection operator
+		tail := []Part{{K: "param", S: "x"}, {K: "dq"}, {K: "sq", S: "x"}, {K: "param", S: "y", Braces: true}}[g.n(4)]
+		return W(Lit(pickS(g, []string{"1", "2", "10", "0"})), tail)
+	}
 	w := &Word{}
 	n := 1 + g.n(3)
 	for i := 0; i < n; i++ {
